@@ -11,7 +11,7 @@ class C18(Check):
     prop = "C18"
     required_theorems = ["wildcard_match_spec", "permission_match_spec", "targets_subset_allowed",
                          "no_permission_rejects_first", "forbidden_by_name_is_error",
-                         "forbidden_single_name_is_denied", "joined_access_subset_allowed",
+                         "forbidden_single_name_is_denied", "joined_access_subset_allowed", "handler_targets_subset_allowed",
                          "model_query_meets_spec", "model_access_meets_spec", "model_grant_meets_spec",
                          "converse_fails_by_overrestriction"]
     technique = ("Lean 4 proof (decision logic stated outright: every object returned on every addressing path satisfies Allowed; "
